@@ -71,6 +71,111 @@ def _dominated(stmts, helpers) -> bool | None:
     return verdict
 
 
+ENGINE_API = {"metabolize", "digest_glucose", "execute_tool_call", "export_tool_schemas", "list_tools", "engulf_tool",
+              "register_function", "get_statistics", "get_ros_level", "get_efficiency", "repair"}
+GUARDED = {"_oxidative_phosphorylation", "execute_tool_call"}
+
+
+class _Scan(ast.NodeVisitor):
+    """One file of the package: where can a tool body be run, who touches the registry, how is an engine used."""
+
+    def __init__(self, rel, is_mito):
+        self.rel, self.is_mito = rel, is_mito
+        self.stack = []          # enclosing class / function names
+        self.sites, self.reg, self.eng = [], [], []
+        self.called = set()      # ids of Attribute nodes that are the callee of a Call
+
+    def _where(self):
+        return f"{self.rel}:{'.'.join(self.stack) or '<module>'}"
+
+    def _cls(self):
+        return self.stack[0] if self.stack else None
+
+    def visit_ClassDef(self, n):
+        self.stack.append(n.name)
+        self.generic_visit(n)
+        self.stack.pop()
+
+    def visit_FunctionDef(self, n):
+        self.stack.append(n.name)
+        self.generic_visit(n)
+        self.stack.pop()
+
+    visit_AsyncFunctionDef = visit_FunctionDef
+
+    def visit_Call(self, n):
+        f = n.func
+        if isinstance(f, ast.Attribute):
+            self.called.add(id(f))
+            if f.attr == "execute" or (f.attr == "func" and (self._toolish(f.value) or
+                                                             (isinstance(f.value, ast.Name) and f.value.id == "self"))):
+                in_guarded = self.is_mito and len(self.stack) == 2 and self.stack[0] == "Mitochondria" and \
+                    self.stack[1] in GUARDED and f.attr == "execute"
+                wrapper = self.is_mito and self.stack == ["SimpleTool", "execute"] and f.attr == "func" and \
+                    isinstance(f.value, ast.Name) and f.value.id == "self"
+                if not in_guarded and not wrapper:
+                    self.sites.append(f"{self._where()}:call .{f.attr}")
+        if isinstance(f, ast.Name) and f.id == "getattr" and len(n.args) >= 2 and \
+                isinstance(n.args[1], ast.Constant) and n.args[1].value in ("execute", "func"):
+            self.sites.append(f"{self._where()}:getattr {n.args[1].value}")
+        self.generic_visit(n)
+
+    def visit_Attribute(self, n):
+        if isinstance(n.ctx, ast.Load) and id(n) not in self.called:
+            # `run = tool.execute` / `f = tool.func` handed on: the body can then be run from anywhere
+            if n.attr == "execute" or (n.attr == "func" and self._toolish(n.value)):
+                self.sites.append(f"{self._where()}:alias .{n.attr}")
+        if n.attr == "tools" and not (self.is_mito and self._cls() == "Mitochondria"):
+            self.reg.append(f"{self._where()}:.tools")
+        v = n.value
+        recv = v.id if isinstance(v, ast.Name) else v.attr if isinstance(v, ast.Attribute) else None
+        if recv is not None and "mitochondria" in recv.lower() and not self.is_mito:
+            if n.attr not in ENGINE_API:
+                self.eng.append(f"{self._where()}:{recv}.{n.attr}")
+        self.generic_visit(n)
+
+    @staticmethod
+    def _toolish(v):
+        """is the receiver a tool object (named so, or taken out of a registry)?  `node.func` of the ast module is not"""
+        try:
+            return "tool" in ast.unparse(v).lower()
+        except Exception:
+            return True
+
+
+def package_facts(repo: Path) -> dict:
+    """Package-wide: every place outside the two guarded functions (and SimpleTool.execute's own `self.func(...)`) that
+    calls / aliases `.execute` or `.func` in a module that knows the engine or a tool registry; every `.tools` access
+    outside class Mitochondria; every use of an engine object outside mitochondria.py that is not its public API."""
+    out = {"execute_sites": [], "registry_uses_outside": [], "engine_other_uses": []}
+    pkg = repo / "operon_ai"
+    for path in sorted(pkg.rglob("*.py")):
+        rel = str(path.relative_to(repo))
+        try:
+            src = path.read_text()
+            tree = ast.parse(src)
+        except Exception:
+            out["execute_sites"].append(f"{rel}:unparsable")
+            continue
+        is_mito = rel == "operon_ai/organelles/mitochondria.py"
+        relevant = is_mito or "mitochondria" in src.lower() or any(
+            isinstance(x, ast.Attribute) and x.attr == "tools" for x in ast.walk(tree))
+        if not relevant:
+            continue
+        sc = _Scan(rel, is_mito)
+        # callee attributes must be known before visit_Attribute sees them: two passes
+        for x in ast.walk(tree):
+            if isinstance(x, ast.Call) and isinstance(x.func, ast.Attribute):
+                sc.called.add(id(x.func))
+        sc.visit(tree)
+        out["execute_sites"] += sc.sites
+        out["registry_uses_outside"] += sc.reg
+        out["engine_other_uses"] += sc.eng
+    for k in out:
+        out[k] = sorted(set(out[k]))
+    return out
+
+
 def extract(repo: Path) -> dict:
     src = (repo / "operon_ai/organelles/mitochondria.py").read_text()
     tree = ast.parse(src)
@@ -86,10 +191,11 @@ def extract(repo: Path) -> dict:
             continue
         v = _dominated(f.body, helpers)
         facts[key] = bool(v)
-    # any other method that calls <x>.execute(...) is an unmodelled execution site: listed, makes the fact file differ
-    for name, f in fns.items():
-        if name not in ("_oxidative_phosphorylation", "execute_tool_call") and _contains_execute(f):
-            facts["execute_sites"].append(name)
+    # any other place that can run a tool body is an unmodelled execution site: listed, makes the theorem fail
+    pk = package_facts(repo)
+    facts["execute_sites"] = pk["execute_sites"]
+    facts["registry_uses_outside"] = pk["registry_uses_outside"]
+    facts["engine_other_uses"] = pk["engine_other_uses"]
     facts["helpers"] = sorted(helpers)
     facts["perm_table"] = evaluate_table(repo)
     facts["safe_names"], facts["safe_call1"] = evaluate_function_table(repo)
@@ -234,8 +340,27 @@ def evaluate_table(repo: Path):
         class ForeignCapability(enum.Enum):      # a plug-in's own vocabulary
             NET = "net"
         C = [Capability.NET, "net", ForeignCapability.NET]
+        from operon_ai.organelles.mitochondria import MetabolicPathway
+        from operon_ai.organelles.nucleus import Nucleus
+        from operon_ai.providers import LLMResponse
         subsets = [None] + [list(c) for k in range(4) for c in itertools.combinations(range(3), k)]
         rows = []
+
+        class Pushy:                       # a provider that insists on the tool once
+            name = "pushy"
+
+            def __init__(self):
+                self.n = 0
+
+            def is_available(self):
+                return True
+
+            def complete(self, prompt, config=None):
+                return LLMResponse(content="ok", model="m", tokens_used=1, latency_ms=0.0)
+
+            def complete_with_tools(self, prompt, tools=None, config=None):
+                self.n += 1
+                return self.complete(prompt), ([ToolCall(id="c", name="t", arguments={})] if self.n == 1 else [])
         for al in subsets:
             for req in subsets:
                 for caps in subsets:
@@ -254,10 +379,21 @@ def evaluate_table(repo: Path):
                         t.required_capabilities = {C[i] for i in req}
                     if caps is not None:
                         t.capabilities = {C[i] for i in caps}
-                    m = Mitochondria(allowed_capabilities=None if al is None else {C[i] for i in al}, silent=True)
-                    m.engulf_tool(t)
-                    m.execute_tool_call(ToolCall(id="c", name="t", arguments={}))
-                    rows.append((al, req, caps, bool(ran)))
+
+                    def engine():
+                        ran.clear()
+                        m = Mitochondria(allowed_capabilities=None if al is None else {C[i] for i in al}, silent=True)
+                        m.engulf_tool(t)
+                        return m
+                    r1 = engine().execute_tool_call(ToolCall(id="c", name="t", arguments={}))
+                    call = (bool(ran), bool(r1.success))
+                    r2 = engine().metabolize("t()", MetabolicPathway.OXIDATIVE)
+                    met = (bool(ran), bool(r2.success))
+                    r3 = engine().metabolize("t()")
+                    auto = (bool(ran), bool(r3.success))
+                    Nucleus(provider=Pushy()).transcribe_with_tools("p", engine())
+                    loop = bool(ran)
+                    rows.append((al, req, caps, call, met, auto, loop))
         return rows
     except Exception:
         return None
@@ -271,7 +407,8 @@ def render(facts: dict) -> str:
         return "none" if x is None else "(some [" + ", ".join(str(i) for i in x) + "])"
     rows = facts.get("perm_table")
     table = "none" if rows is None else "some [\n  " + ",\n  ".join(
-        f"({ol(a)}, {ol(r)}, {ol(c)}, {b(ok)})" for (a, r, c, ok) in rows) + "]"
+        f"⟨{ol(a)}, {ol(r)}, {ol(c)}, {b(cl[0])}, {b(cl[1])}, {b(mt[0])}, {b(mt[1])}, {b(au[0])}, {b(au[1])}, {b(lp)}⟩"
+        for (a, r, c, cl, mt, au, lp) in rows) + "]"
     rrows = facts.get("reg_table")
     regtable = "none" if rrows is None else "some [\n  " + ",\n  ".join(
         f"({a}, {c}, {b(sm)}, [{', '.join(map(str, d1))}], [{', '.join(map(str, d2))}], {b(h)}, {b(r)})"
@@ -284,13 +421,24 @@ open Operon.MitoTools
 /-- does a capability-subset test dominate `tool.execute` in `_oxidative_phosphorylation` / `execute_tool_call`? -/
 def guards : Guards := ⟨{b(facts['oxidative'])}, {b(facts['toolCall'])}⟩
 
-/-- other methods of `Mitochondria` that call `.execute(...)` (must be empty: they are not in the model) -/
+/-- PACKAGE-WIDE (every module of operon_ai that mentions the engine or a `.tools` registry): places other than the two
+    guarded functions and `SimpleTool.execute`'s own `self.func(...)` that call, alias or `getattr` a tool's `.execute` /
+    `.func` (must be empty: they are not in the model) -/
 def otherExecuteSites : List String := [{sites}]
 
-/-- the REAL ceiling test evaluated through `execute_tool_call` on every (ceiling, required_capabilities, capabilities)
-    over a 3-tag universe - Capability.NET, 'net', ForeignCapability.NET - (each `none` = absent / unrestricted, or a subset): did the tool body run?
-    `none` = the code could not be evaluated. -/
-def permTable : Option (List (Option (List Cap) × Option (List Cap) × Option (List Cap) × Bool)) := {table}
+/-- accesses to a `.tools` registry outside `class Mitochondria` (must be empty) -/
+def registryUsesOutside : List String := [{", ".join(chr(34) + x + chr(34) for x in facts.get("registry_uses_outside", ["not-extracted"]))}]
+
+/-- attributes of an engine object used outside mitochondria.py that are not its public API (the tool loop may only
+    use `export_tool_schemas` / `execute_tool_call`; must be empty) -/
+def engineOtherUses : List String := [{", ".join(chr(34) + x + chr(34) for x in facts.get("engine_other_uses", ["not-extracted"]))}]
+
+/-- the REAL ceiling test evaluated through EVERY entry point - `execute_tool_call`, `metabolize("t()", OXIDATIVE)`,
+    `metabolize("t()")` (auto-detected pathway), `Nucleus.transcribe_with_tools` with a provider that requests the tool -
+    on every (ceiling, required_capabilities, capabilities) over a 3-tag universe - Capability.NET, 'net',
+    ForeignCapability.NET - (each `none` = absent / unrestricted, or a subset): did the tool body run, and did the
+    result report success?  `none` = the code could not be evaluated. -/
+def permTable : Option (List PermRow) := {table}
 
 /-- the REAL registration entry points evaluated on every (first style, second style, same callable?, first declaration,
     second declaration) under the empty ceiling - styles 0 = constructor `tools=`, 1 = `engulf_tool(SimpleTool)`,
